@@ -397,4 +397,12 @@ def c18(ctx):
     return res
 
 
-PLUGINS = {"C18": c18, "C15": c15, "C13": c13, "C08": c08, "C11": c11, "C02": c02, "C06": c06, "C10": c10, "C05": c05, "C09": c09, "C04": c04, "C07": c07, "C12": c12}
+def c14(ctx):
+    """C14 hot backup: histories with readers of every age; Tx.WriteTo into a writer that commits further write transactions on the same DB between the chunks of the copy
+    (0, 1, 2 or 5 of them), and Tx.CopyFile; checked: bytes written = Tx.Size() = mark * pageSize, both metas valid with txids T and T-1, the copy opens, its dump = the Spec.v snapshot of the
+    reader, decoder content/order/bounds/accounting, Tx.Check of the copy."""
+    return _hist(ctx, "c14", "none", HIST_RULE + "; plus hot backups through open readers with interleaved commits; non-trivial needs at least one backup", 240, 16000,
+                 as_propfail=True, extra_args=("-backups",))
+
+
+PLUGINS = {"C14": c14, "C18": c18, "C15": c15, "C13": c13, "C08": c08, "C11": c11, "C02": c02, "C06": c06, "C10": c10, "C05": c05, "C09": c09, "C04": c04, "C07": c07, "C12": c12}
